@@ -202,6 +202,7 @@ fn input_fingerprint(i: &Input) -> String {
         Input::NestedBadKey(m) => format!("{m:?}"),
         Input::Unit => "()".into(),
         Input::StrKeyMap(m) => format!("{m:?}"),
+        Input::Chain(c) => format!("chain:{}", c.v),
     }
 }
 
